@@ -390,6 +390,41 @@ def rule_r6(chk, facts, P):
         raise AnalysisBroken('argument list operations of ExpandMacro/ExpandSHIFT not found')
 
 
+def rule_r7(chk, facts, P):
+    chk.rule('C11-R7', 'the line processors of IRP/IRPN/IRPC/REPT deliver a body line before they compare the iteration '
+             'counter with tag->ParCnt; therefore every *_OutProcessor that queues such a tag (tag->Next = FirstInputTag; '
+             'FirstInputTag = tag) does so only under tag->ParCnt > 0 - a repetition over nothing expands to nothing',
+             min_instances=2)
+    n = 0
+    S = P.slots()
+    outs = set()
+    for f in P.all_funcs():
+        if f.unit.name != 'as.c':
+            continue
+        for b, i, ln, c in f.calls('GenerateOUTProcessor'):
+            a0 = nocast(c[2][0])
+            if a0[0] == 'fn':
+                g = P.resolve(f.unit, a0[1])
+                # only tags whose count is compared after the line was delivered (ParZ against ParCnt)
+                if g is not None:
+                    outs.add(g)
+    for g in sorted(outs, key=lambda x: x.name):
+        if g.name in ('MACRO_OutProcessor', 'WHILE_OutProcessor'):
+            continue            # macros are stored, not queued; WHILE evaluates its condition before queueing
+        for b, i, ln, m in g.nodes():
+            if is_assign(m) and m[1] == '=' and strip(m[2]) == ('g', 'FirstInputTag') and nocast(m[3])[0] == 'm':
+                n += 1
+
+                def pos(a):
+                    return a[0] == 'cmp' and a[1] == '>' and a[2][0] == 'm' and a[2][2].endswith('.ParCnt') and const_val(a[3]) == 0
+                ok, w = g.guarded(b, i, lambda l: edge_has_atom(l, pos))
+                chk.ob('C11-R7', 'as.c:%s:queue-if-count>0' % g.name, ok, g.loc(ln), 'queued only for a positive count' if ok else
+                       '%s() queues the collected body although the iteration count may be 0: the line processor delivers '
+                       'the body once before it looks at the count (IRPC over "" assembles its body once)' % g.name)
+    if n < 2:
+        raise AnalysisBroken('queueing out-processors not found')
+
+
 def run(chk, facts, info):
     P = facts.program('asl')
     rule_r1(chk, facts, P)
@@ -398,6 +433,7 @@ def run(chk, facts, info):
     rule_r4(chk, facts, P)
     rule_r5(chk, facts, P)
     rule_r6(chk, facts, P)
+    rule_r7(chk, facts, P)
     chk.note('Decided: private symbol space per expansion/iteration, inertness of expansion entry points under skipped '
              'conditionals, special token numbering, terminator-aware growth of line buffers. Not decided: the '
              'textual-substitution equivalence itself.')
